@@ -56,12 +56,14 @@ void vp_thr_res(suspend_point_type* sp) {
 // ------------------------------------------------------------------ pre-state: T suspended a task on stack 0 (late-resume branch of the
 // hand-shake: the switch is complete, sp0 is `suspended`, D0 detached) and runs the dispatch loop of coroutine D1.
 // Reached by the `handshake` harness (its "late" witness: coroutine parked in the loop stub, resume not yet called).
-void vp_wake_world(int pool_set) {
+void vp_wake_world(int pool_set, unsigned nworkers) {
   arena* a = the_arena();
   new (&g_mon.v) thread_control_monitor;
   a->my_references.store(arena::ref_external + arena::ref_external, std::memory_order_relaxed);   // the external thread + its live coroutine
   a->my_limit.store(1, std::memory_order_relaxed);
-  a->my_num_slots = 1; a->my_num_reserved_slots = 1; a->my_max_num_workers = 0;                     // arena of size 1: no workers can join
+  // nworkers == 0: every slot is reserved (task_arena(1), task_arena(n,n)): nobody can ever join, only T can take the resume task.
+  // nworkers > 0: worker slots exist but no worker is present (slots beyond 0 lie past my_limit == 1 and are never touched).
+  a->my_num_slots = 1 + nworkers; a->my_num_reserved_slots = 1; a->my_max_num_workers = nworkers;
   a->my_priority_level = 1;
   a->my_default_ctx = &g_ctx.v;
   a->my_threading_control = reinterpret_cast<threading_control*>(&g_ctx.v);                         // opaque: only passed to stubs
@@ -102,4 +104,7 @@ int vp_stream_bit(task_stream<front_accessor>* s, unsigned lane) { return is_bit
 unsigned long vp_waitset_size(void) { return g_mon.v.my_waitset.size(); }
 int vp_cmm_is_free(concurrent_monitor_mutex* mx) { return mx->my_flag.load(std::memory_order_relaxed) == 0; }
 unsigned vp_ref_worker(void) { return arena::ref_worker; }
+// context of a wait node (monitor-stub unit): which arena / tag the sleeper registered with
+arena* vp_node_arena(wait_node<market_context>* n) { return n->my_context.my_arena_addr; }
+unsigned long vp_node_tag(wait_node<market_context>* n) { return n->my_context.my_uniq_addr; }
 }
